@@ -3,6 +3,7 @@ package props
 // C17 - the JSON single-model runner is equivalent to a direct run and always answers.
 
 import (
+	"os"
 	"bytes"
 	"encoding/json"
 	"fmt"
@@ -64,9 +65,15 @@ type jResp struct {
 }
 
 // runOwSingle feeds req to the real ow-single binary.
+// owSingleEnv: the environment of the next ow-single child (the answer may not depend on it): set per case.
+var owSingleEnv []string
+
 func runOwSingle(req []byte) (stdout, stderr []byte, exit int, err error) {
 	cmd := exec.Command("/verif/bin/ow-single")
 	cmd.Stdin = bytes.NewReader(req)
+	if len(owSingleEnv) > 0 {
+		cmd.Env = append(os.Environ(), owSingleEnv...)
+	}
 	var so, se bytes.Buffer
 	cmd.Stdout, cmd.Stderr = &so, &se
 	e := cmd.Run()
@@ -167,6 +174,14 @@ func c17Valid(c *core.Ctx) {
 	c.Begin(map[string]interface{}{"model": model, "request": json.RawMessage(body)})
 	isTable := tableModel(model)
 	c.Class(fmt.Sprintf("valid/%s/missingP%v/missingI%v", model, len(suppliedP) < len(desc.Parameters), len(suppliedI) < len(desc.Inputs)))
+	// the process environment is not part of the request: three quarters of the children run on 1, 2 or 3 processors,
+	// in another time zone and locale
+	owSingleEnv = nil
+	if k := (c.Idx / len(names)) % 4; k > 0 {
+		owSingleEnv = []string{fmt.Sprintf("GOMAXPROCS=%d", k), "TZ=" + []string{"America/New_York", "Australia/Sydney", "Pacific/Kiritimati"}[k-1], "LANG=de_DE.UTF-8", "LC_ALL=de_DE.UTF-8"}
+		c.Tag(fmt.Sprintf("env:gomaxprocs=%d", k))
+	}
+	defer func() { owSingleEnv = nil }()
 	if corrupt {
 		c.Tag("valid:corrupt-record-in-series")
 	}
